@@ -23,6 +23,7 @@ CONSTANTS U,         \* species universe (subset of 1..16, with gaps)
           ReadRule,  \* "written" | "all"
           UnsetSpace, LayoutSpace,  \* which unset patterns / layouts are enumerated
           ScalarRule,  \* "fill_is_unset" | "fill_is_default": what a never-written scalar cell reads as
+          ListRule,    \* "own_file" | "first_file": which file's species list labels the cells read from a file
           DfltSpace    \* which patterns of the default-bearing optional scalars are enumerated
 
 SFields == {"ts1", "ts2", "tsp", "tsm"}   \* TS, TS, TSP, TSM species-indexed fields
@@ -36,11 +37,18 @@ AllDflt == [{1, 2} -> OptStates]
 PlainDflt == {[t \in {1, 2} |-> "set"]}
 SomeDflt == PlainDflt \cup {[t \in {1, 2} |-> IF t = 1 THEN "none" ELSE "untouched"], [t \in {1, 2} |-> IF t = 1 THEN "untouched" ELSE "none"]}
 Selectors == {"same", "none", "shift", "firstonly"}
-Layouts == {"single", "assoc_at_create", "create_associated", "save_from_memory", "evicted"}
+\* "split": the fields ts2 and tsm form a second field set kept in an associated
+\* file written together with the base file (both files get the species list of
+\* the whole trajectory); "split_assoc": that associated file is produced later
+\* by create_associated from an existing base file - two files, each with its
+\* OWN species list
+Layouts == {"single", "assoc_at_create", "create_associated", "save_from_memory", "evicted", "split", "split_assoc"}
 Trajs == {1, 2}
 AllUnset == SUBSET Opt
 NoUnset == {{}}
+SomeUnset == {{}, Opt, {"t_i"}}
 OneLayout == {"single"}
+TwoLayouts == {"single", "split_assoc"}
 
 Next1(f) == CASE f = "ts1" -> "ts2" [] f = "ts2" -> "tsp" [] f = "tsp" -> "tsm" [] f = "tsm" -> "ts1"
 
@@ -51,19 +59,25 @@ Sets(c, t) == IF t = 1 THEN c.s
                      [] c.sel = "shift" -> [f \in SFields |-> c.s[Next1(f)]]
                      [] c.sel = "firstonly" -> [f \in SFields |-> IF f = "ts1" THEN c.s[f] ELSE {}]
 
-FileSet(c) == UNION {c.s[f] : f \in SFields}
-FileSpecies(c) == SetToSortSeq(FileSet(c), LAMBDA a, b : a < b)
+FileOf(c, f) == IF c.layout \in {"split", "split_assoc"} /\ f \in {"ts2", "tsm"} THEN 2 ELSE 1
+FileSet(c, k) == IF c.layout = "split_assoc" THEN UNION {c.s[f] : f \in {g \in SFields : FileOf(c, g) = k}}
+                 ELSE UNION {c.s[f] : f \in SFields}
+FileSpeciesOf(c, k) == SetToSortSeq(FileSet(c, k), LAMBDA a, b : a < b)
+FileSpecies(c) == FileSpeciesOf(c, 1)     \* (the only list of the one-file layouts)
+\* the list that labels what is read for field f
+ReadList(c, f) == IF ListRule = "own_file" \/ FileSpeciesOf(c, 1) = <<>> THEN FileSpeciesOf(c, FileOf(c, f)) ELSE FileSpeciesOf(c, 1)
 PosIn(sp, seq) == CHOOSE i \in 1..Len(seq) : seq[i] = sp
 
 Val(f, t, sp) == (CASE f = "ts1" -> 1 [] f = "ts2" -> 2 [] f = "tsp" -> 3 [] f = "tsm" -> 4) * 1000 + t * 100 + sp
 
-WritePos(c, sp) == IF Design = "filepos" THEN PosIn(sp, FileSpecies(c)) ELSE sp
+WritePos(c, f, sp) == IF Design = "filepos" THEN PosIn(sp, FileSpeciesOf(c, FileOf(c, f))) ELSE sp
 
 VARIABLES case, phase, file, back, err,
           sfile, sback    \* the per-trajectory scalar cells and what is read from them
 cvars == <<case, phase, file, back, err, sfile, sback>>
 
-CaseSpace == [s : [SFields -> SUBSET U], sel : Selectors, unset : UnsetSpace, layout : LayoutSpace, dflt : DfltSpace]
+CaseSpace == {c \in [s : [SFields -> SUBSET U], sel : Selectors, unset : UnsetSpace, layout : LayoutSpace, dflt : DfltSpace] :
+                 c.layout \in {"split", "split_assoc"} => c.sel # "shift"}    \* (a shifted second trajectory would not fit the two species lists)
 
 CInit == /\ case \in CaseSpace
          /\ phase = "start" /\ file = <<>> /\ back = <<>> /\ err = "none"
@@ -83,10 +97,10 @@ Written(c) == {x \in Cells(c) : x[3] \in Sets(c, x[2])[x[1]]}
 \* dimension is an error ("NetCDF: Index exceeds dimension bound")
 Write ==
   /\ phase = "start"
-  /\ IF \E x \in Written(case) : WritePos(case, x[3]) > Len(FileSpecies(case))
+  /\ IF \E x \in Written(case) : WritePos(case, x[1], x[3]) > Len(FileSpeciesOf(case, FileOf(case, x[1])))
      THEN err' = "index_exceeds_dimension" /\ file' = file /\ phase' = "failed" /\ sfile' = sfile
-     ELSE /\ file' = [k \in {<<x[1], x[2], WritePos(case, x[3])>> : x \in Written(case)} |->
-                        LET x == CHOOSE y \in Written(case) : <<y[1], y[2], WritePos(case, y[3])>> = k
+     ELSE /\ file' = [k \in {<<x[1], x[2], WritePos(case, x[1], x[3])>> : x \in Written(case)} |->
+                        LET x == CHOOSE y \in Written(case) : <<y[1], y[2], WritePos(case, y[1], y[3])>> = k
                         IN Val(x[1], x[2], x[3])]
           /\ err' = err /\ phase' = "written"
           \* a scalar that is None is not written: its cell keeps the fill value
@@ -99,9 +113,10 @@ CellVal(k) == IF k \in DOMAIN file THEN file[k] ELSE Fill
 Read ==
   /\ phase = "written"
   /\ back' = [ft \in SFields \X Trajs |->
-                {<<FileSpecies(case)[p], CellVal(<<ft[1], ft[2], p>>)>> :
-                    p \in {q \in 1..Len(FileSpecies(case)) :
-                             ReadRule = "all" \/ <<ft[1], ft[2], q>> \in DOMAIN file}}]
+                LET own == FileSpeciesOf(case, FileOf(case, ft[1]))
+                    lab == ReadList(case, ft[1])
+                IN {<<IF p <= Len(lab) THEN lab[p] ELSE 0, CellVal(<<ft[1], ft[2], p>>)>> :      \* label 0: no such entry in the list used
+                    p \in {q \in 1..Len(own) : ReadRule = "all" \/ <<ft[1], ft[2], q>> \in DOMAIN file}}]
   /\ sback' = [ft \in DOMAIN sfile |->
                  IF sfile[ft] = Unset /\ ScalarRule = "fill_is_default" /\ ft[1] \in OptD THEN <<ft[1], 0>> ELSE sfile[ft]]
   /\ phase' = "read"
